@@ -42,9 +42,16 @@ def gen_parse(rng):
     nfail = rng.choice([0, 0, 0, 1, 2, 5])
     total_reads = len(extra) + len(csi) + len("%d;%dR" % (row, col))
     fails = sorted(rng.randrange(total_reads + nfail) for _ in range(nfail))
-    return {"kind": "parse", "extra": extra, "csi": csi, "row": row, "col": col, "trailing": trailing,
+    case = {"kind": "parse", "extra": extra, "csi": csi, "row": row, "col": col, "trailing": trailing,
             "fail_at": fails, "callback": rng.random() < .75,
             "encoding": rng.choice(["utf-8", "latin-1"])}
+    if case["encoding"] == "utf-8" and csi != "\x9b" and "\x9b" not in extra and rng.random() < .15:
+        # sys.stdin decodes with errors="surrogateescape": a typed-ahead byte that is not valid
+        # UTF-8 reaches the window as a lone surrogate and stands for exactly that byte
+        case["errors"] = "surrogateescape"
+        k = rng.randint(0, len(extra))
+        case["extra"] = extra[:k] + rng.choice(["\udce1", "\udcff\udc80"]) + extra[k:]
+    return case
 
 
 class ParseRig:
@@ -87,6 +94,7 @@ def run_parse(ctx, case):
     extra, trailing = case["extra"], case["trailing"]
     report = "%s%d;%dR" % (case["csi"], case["row"], case["col"])
     inp.encoding = case["encoding"]
+    inp.errors = case.get("errors", "strict")
     inp.q = extra + report + trailing
     inp.consumed = 0
     inp.reads = 0
@@ -98,7 +106,7 @@ def run_parse(ctx, case):
     inp.fail_plan = plan
     del r.calls[:]
     del r.out.log[:]
-    sig = ("C18", extra, report, trailing, tuple(case["fail_at"]), case["callback"], case["encoding"])
+    sig = ("C18", extra, report, trailing, tuple(case["fail_at"]), case["callback"], case["encoding"], case.get("errors"))
     nontrivial = bool(extra or trailing)
     problems = []
     want = (case["row"] - 1, case["col"] - 1)
@@ -116,7 +124,7 @@ def run_parse(ctx, case):
         elif got != want:
             problems.append("returned %r" % (got,))
         if extra:
-            if r.calls != [extra.encode(case["encoding"])]:
+            if r.calls != [extra.encode(case["encoding"], case.get("errors", "strict"))]:
                 problems.append("callback calls %r" % (r.calls,))
         elif r.calls:
             problems.append("callback called without extra input: %r" % (r.calls,))
@@ -126,7 +134,8 @@ def run_parse(ctx, case):
         problems.append("unread remainder %r" % (inp.q,))
     if "".join(r.out.log).count("\x1b[6n") != 1:
         problems.append("query written %d times" % "".join(r.out.log).count("\x1b[6n"))
-    ctx.judge(not problems, case, sig, "C18:parse", [want, extra], [got, list(r.calls)], problems, nontrivial)
+    ctx.judge(not problems, case, sig, "C18:extra-bytes-undecodable-in-stream-encoding" if case.get("errors") else "C18:parse",
+              [want, extra], [got, list(r.calls)], problems, nontrivial)
     inp.q = ""
     inp.fail_plan = []
 
@@ -137,7 +146,7 @@ def gen_history(rng):
     for _ in range(rng.randint(1, 5)):
         steps.append({"h": rng.random(), "tall": rng.random() < .3, "len": rng.random(), "cursor": rng.random(), "d": rng.random(),
                       "nested": rng.random() < .3, "d2": rng.random(), "extra_query": rng.random() < .2,
-                      "d3": rng.random()})
+                      "d3": rng.random(), "failed_first": rng.random() < .15})
     case = {"kind": "history", "rows": rows, "cols": cols, "pre": rng.randint(0, rows - 1), "steps": steps}
     if rng.random() < .25:
         case["queries_before_first_render"] = [rng.random() for _ in range(rng.randint(1, 3))]
@@ -163,6 +172,7 @@ def run_history(ctx, case):
             term.feed("h\r\n")
         with CursorAwareWindow(out, inp) as w:
             log = []
+            had_failed = False
             if case.get("queries_before_first_render"):
                 # the first query only establishes where the cursor is; every later one must
                 # account for the movement since the previous query
@@ -206,11 +216,32 @@ def run_history(ctx, case):
                             total[0] += d2
                             nested_ret[0] += w.get_cursor_vertical_diff()
                         inp.hook = hook
+                    if st.get("failed_first") and not nested:
+                        # a keypress typed ahead of the report and no extra_bytes_callback: the
+                        # query raises ValueError (as the property prescribes) and accounts for
+                        # nothing; the next query has to account for the whole movement
+                        inp.push("k")
+                        try:
+                            w.get_cursor_vertical_diff()
+                            failed = None
+                        except ValueError:
+                            failed = True
+                        except Exception as ex:  # noqa
+                            failed = repr(ex)
+                        if failed is not True or w.top_usable_row != top0:
+                            ctx.judge(False, case, ("C18", "hist-failed-query", rows, top0, d),
+                                      "C18:movement-not-conserved-after-failed-query" if had_failed else "C18:failed-query",
+                                      "ValueError, top_usable_row unchanged", [failed, w.top_usable_row, top0],
+                                      {"step": k}, True)
+                            return
+                        ctx.count("failed_queries")
+                        had_failed = True
                     ret = w.get_cursor_vertical_diff()
                     accounted = (w.top_usable_row - top0) + ret + nested_ret[0]
                     log.append([h, cp[0], d, nested, top0, w.top_usable_row, ret, nested_ret[0]])
-                    sig = ("C18", "hist", rows, top0, d, total[0], nested, h, cp[0])
-                    ctx.judge(accounted == total[0], case, sig, "C18:movement-not-conserved", total[0],
+                    sig = ("C18", "hist", rows, top0, d, total[0], nested, h, cp[0], bool(st.get("failed_first")))
+                    ctx.judge(accounted == total[0], case, sig, "C18:movement-not-conserved-after-failed-query"
+                              if had_failed else "C18:movement-not-conserved", total[0],
                               accounted, {"step": k, "log": log[-3:]}, total[0] != 0)
                     if term.unknown:
                         ctx.inconclusive_because("reference terminal met an unknown sequence: %r" % (term.unknown[:3],))
